@@ -184,6 +184,28 @@ theorem wnaQ_posDef (dim : Dim) {T q : ℝ} (hT : 0 < T) (hq : 0 < q) : (toM (wn
   rw [Matrix.reindex_apply]
   exact (blockDiagonal_posDef fun _ => Q2_posDef hT).submatrix (blkEquiv dim.n).symm.injective
 
+/-! ### positive semidefiniteness (the boundary T = 0 / q = 0 included) -/
+theorem Q2_posSemidef {T : ℝ} (hT : 0 ≤ T) :
+    (!![T ^ 3 / 3, T ^ 2 / 2; T ^ 2 / 2, T] : Matrix (Fin 2) (Fin 2) ℝ).PosSemidef := by
+  refine Matrix.PosSemidef.of_dotProduct_mulVec_nonneg ?_ ?_
+  · ext i j
+    fin_cases i <;> fin_cases j <;> simp
+  · intro x
+    simp only [dotProduct, Matrix.mulVec, Fin.sum_univ_two, Pi.star_apply, star_trivial,
+      Matrix.of_apply, Matrix.cons_val', Matrix.cons_val_zero, Matrix.cons_val_one,
+      Matrix.cons_val_fin_one]
+    rw [Q2_quad]
+    positivity
+
+theorem blockDiagonal_posSemidef {m o : Type*} [Fintype m] [Fintype o] [DecidableEq o]
+    {M : o → Matrix m m ℝ} (h : ∀ k, (M k).PosSemidef) : (Matrix.blockDiagonal M).PosSemidef := by
+  refine Matrix.PosSemidef.of_dotProduct_mulVec_nonneg ?_ ?_
+  · rw [Matrix.IsHermitian, Matrix.blockDiagonal_conjTranspose]
+    congr 1; funext k; exact (h k).1
+  · intro x
+    rw [blockDiagonal_quad]
+    exact Finset.sum_nonneg fun k _ => (h k).dotProduct_mulVec_nonneg _
+
 /-! ### entry-wise closed forms -/
 
 theorem wnaF_entry (dim : Dim) (T : ℝ) (i j : Fin (dim.n * 2)) :
